@@ -168,10 +168,37 @@ theorem sat_tsat_inverse_partial (t : ℝ) (h0 : 0 ≤ t) (h1 : t ≤ tcritical)
     tsat (sat t).toK = Ret.num t :=
   sat_tsat_inverse t h0 h1 hΔ hD hβ hbr hne hg
 
+/-- **`sat (tsat p) = p` exactly (over the reals)** for every `p` of `tsat`'s range
+    `611.213 ≤ p ≤ pcritical` whose saturation temperature `sat`'s range test accepts (`hg`), on the
+    branches the routines take (`tsat`: `hΔ hD h2`; `sat`: `2Aβ + B ≤ 0`, `Aβ + B ≠ 0`).  `_partial` for
+    the same reason as above. -/
+theorem tsat_sat_inverse_partial (p : ℝ) (h0 : pmin ≤ p) (h1 : p ≤ pcritical)
+    (hΔ : 0 ≤ tsDisc (Real.sqrt (Real.sqrt (p / pstar4)) * Real.sqrt (Real.sqrt (p / pstar4))) (Real.sqrt (Real.sqrt (p / pstar4))))
+    (hD : tsDen (Real.sqrt (Real.sqrt (p / pstar4)) * Real.sqrt (Real.sqrt (p / pstar4))) (Real.sqrt (Real.sqrt (p / pstar4))) ≠ 0)
+    (h2 : 0 ≤ tsDisc2 (tsTheta (Real.sqrt (Real.sqrt (p / pstar4)) * Real.sqrt (Real.sqrt (p / pstar4))) (Real.sqrt (Real.sqrt (p / pstar4)))))
+    (hbr : 2 * satA (tsTheta (Real.sqrt (Real.sqrt (p / pstar4)) * Real.sqrt (Real.sqrt (p / pstar4))) (Real.sqrt (Real.sqrt (p / pstar4))))
+        * Real.sqrt (Real.sqrt (p / pstar4))
+      + satB (tsTheta (Real.sqrt (Real.sqrt (p / pstar4)) * Real.sqrt (Real.sqrt (p / pstar4))) (Real.sqrt (Real.sqrt (p / pstar4)))) ≤ 0)
+    (hne : satA (tsTheta (Real.sqrt (Real.sqrt (p / pstar4)) * Real.sqrt (Real.sqrt (p / pstar4))) (Real.sqrt (Real.sqrt (p / pstar4))))
+        * Real.sqrt (Real.sqrt (p / pstar4))
+      + satB (tsTheta (Real.sqrt (Real.sqrt (p / pstar4)) * Real.sqrt (Real.sqrt (p / pstar4))) (Real.sqrt (Real.sqrt (p / pstar4)))) ≠ 0)
+    (hg : 0 ≤ (tsat p).toK ∧ (tsat p).toK ≤ tcritical) :
+    sat (tsat p).toK = Ret.num p :=
+  tsat_sat_inverse p h0 h1 hΔ hD h2 hbr hne hg
+
 /-- outside `[611.213 Pa, pcritical]` `tsat` returns `None` — so the inverse fails wherever `sat t`
     leaves that interval (which it does at the critical end: `sat(373.946) = 22064000.00032 > pcritical`,
     exhibited bit for bit by the driver corpus, facet `critical_end_witness`) -/
 theorem tsat_outside_range (p : ℝ) (h : ¬(pmin ≤ p ∧ p ≤ pcritical)) : tsat p = Ret.none := tsat_none p h
+
+/-- **The negative result at the critical end** (the known finding `sat-tsat-inverse:critical-end`),
+    proved in exact real arithmetic on the code's own constants, not just observed in doubles:
+    `sat tcritical > pcritical` (by 3.2e-4 Pa), hence `tsat (sat tcritical)` is `None` — the full-strength
+    statement "`tsat (sat t) = t` on the closed interval" is *false* for this code, which is why
+    `sat_tsat_inverse_partial` carries `hg`. -/
+theorem sat_tsat_critical_end :
+    (pcritical : ℝ) < (sat (tcritical : ℝ)).toK ∧ tsat (sat (tcritical : ℝ)).toK = Ret.none :=
+  ⟨sat_critical_exceeds, tsat_sat_critical_none⟩
 
 /-! ### viscosity is positive -/
 
@@ -185,5 +212,11 @@ theorem visc_pos (d t : ℝ) (ht0 : 0 ≤ t) : ∃ μ, visc d t = Ret.num μ ∧
 theorem b23_near_inverse (t : ℝ) (h0 : 350 ≤ t) (h1 : t ≤ 590) :
     ∃ p t', b23p t = Ret.num p ∧ b23t p = Ret.num t' ∧ 0 ≤ t' - t ∧ t' - t ≤ 1 / 1000000000 :=
   Proofs.Iapws.b23_near_inverse t h0 h1
+
+/-- and `b23p (b23t p)` differs from `p` by at most 1e-4 Pa (1e-11 relative) over `16.5 … 100 MPa`,
+    which contains the whole boundary `b23p 350 = 16.529 MPa … b23p 590 = 100 MPa` -/
+theorem b23_near_inverse_p (p : ℝ) (h0 : 16500000 ≤ p) (h1 : p ≤ 100000000) :
+    ∃ t p', b23t p = Ret.num t ∧ b23p t = Ret.num p' ∧ |p' - p| ≤ 1 / 10000 :=
+  Proofs.Iapws.b23_near_inverse_p p h0 h1
 
 end Props.C14
